@@ -54,7 +54,7 @@ CHECKS["C09"] = mc("E3-fault-product on real rayon (tier A) + E4 rayon model (ti
   "Real-rayon interleavings are not enumerated by tier A (evidence says exhaustive=false for that dimension); two honest 64-bit draws collide with probability < 2^-58.", "4/C09")
 CHECKS["C10"] = mc("E1-choice-tree + E3-bounded-exhaustive",
   "stateless model checking over the RNG (all grid word sequences) on tagged parents, plus exhaustive enumeration of all index/range arguments of the exchange primitives",
-  "TwoPointXo and UniformXo in 6 flavours x all length pairs 0..5 (thorough 0..8): error iff lengths differ; child gene i comes from a parent's position i; two-point: one contiguous segment and every segment [a,b) including those touching either end occurs over all streams, empty parents give an empty child; uniform: every mask has probability exactly 2^-l (concluded only when the draws are one 32-bit word per gene; otherwise support only). Per-leaf oracle also on every stream over the grid plus the extreme words 0 and all-ones (lengths <= 4). Long genomes (63..129, thorough 31..257): two-point with both cut points enumerated, uniform under every stream with at most 1 (2) non-default words over an alphabet with alternating bit-block words: every position from either parent, every pair of positions from different parents, every segment. crossover_gene / crossover_segment for all indices and ranges up to length+2 on all length pairs 0..4, and on long bitstrings of equal and different sizes (1200..2100, thorough ..70001) for every segment length 0..=1100 from six start positions: in range => exactly the addressed genes swapped, out of range => Err and both genomes unchanged, never a panic.",
+  "TwoPointXo and UniformXo in 6 flavours x all length pairs 0..5 (thorough 0..8): error iff lengths differ; child gene i comes from a parent's position i; two-point: one contiguous segment and every segment [a,b) including those touching either end occurs over all streams, empty parents give an empty child; uniform: every mask has probability exactly 2^-l (concluded only when the draws are one 32-bit word per gene; otherwise support only). Per-leaf oracle also on every stream over the grid plus the extreme words 0 and all-ones (lengths <= 4). Long genomes (63..129, thorough 31..257): two-point with both cut points enumerated, uniform under every stream with at most 1 (2) non-default words over an alphabet with alternating bit-block words: every position from either parent, every pair of positions from different parents, every segment. crossover_gene / crossover_segment for all indices and ranges up to length+2 on all length pairs 0..4, and on long bitstrings of equal and different sizes (1200..2100, thorough ..70001) for every segment length 0..=1100 from six start positions: in range => exactly the addressed genes swapped, out of range => Err and both genomes unchanged, never a panic. Two-point crossover of parents of usize::MAX, usize::MAX-1, 2^63, 2^32+1, 2^32 zero-sized genes on every stream over the extended grid: a child of that length, unequal lengths an error.",
   "Trusted: Grid(l(l+1)) is exact for cut points drawn from 0..l and from 0..=l.", "4/C10")
 CHECKS["C11"] = mc("E1-choice-tree",
   "stateless model checking over the RNG: all grid word sequences, structural oracle on every leaf",
